@@ -110,6 +110,7 @@ type World struct {
 	Events []*Event
 
 	podIdx, stsIdx, dpIdx, poolIdx cache.Indexer
+	fipIdx                         cache.Indexer // the FloatingIP informer's (lagging) cache
 	nextUID                        int
 	// Voided["uid/ip"]: the address left the configuration (reload) while the pod held it - C04 exempts it
 	Voided map[string]bool
@@ -130,7 +131,10 @@ type World struct {
 	fipHandlers []cache.ResourceEventHandler
 }
 
-// capFIPInformer hands the plugin an informer whose AddEventHandler records the handler instead of starting a watch.
+// capFIPInformer is what the daemon's shared FloatingIP informer looks like to the plugin and its IPAM: AddEventHandler
+// records the handler (the harness delivers the events), HasSynced is true, and the cache behind Lister() / GetIndexer()
+// shows the store AS OF THE LAST explicit `fipsync` op (or process start) - it LAGS behind galaxy-ipam's own writes
+// exactly like the real informer does.
 type capFIPInformer struct {
 	galaxyinformers.FloatingIPInformer
 	w *World
@@ -140,9 +144,28 @@ func (c capFIPInformer) Informer() cache.SharedIndexInformer {
 	return &capSharedInformer{c.FloatingIPInformer.Informer(), c.w}
 }
 
+func (c capFIPInformer) Lister() galaxylisters.FloatingIPLister {
+	return galaxylisters.NewFloatingIPLister(c.w.fipIdx)
+}
+
 type capSharedInformer struct {
 	cache.SharedIndexInformer
 	w *World
+}
+
+func (c *capSharedInformer) HasSynced() bool           { return true }
+func (c *capSharedInformer) GetIndexer() cache.Indexer { return c.w.fipIdx }
+func (c *capSharedInformer) GetStore() cache.Store     { return c.w.fipIdx }
+
+// syncFIPs lets the FloatingIP informer catch up: its cache becomes a copy of the store.
+func (w *World) syncFIPs() {
+	for _, o := range w.fipIdx.List() {
+		w.fipIdx.Delete(o)
+	}
+	fl, _ := w.Galaxy.GalaxyV1alpha1().FloatingIPs().List(context.TODO(), metav1.ListOptions{})
+	for i := range fl.Items {
+		w.fipIdx.Add(fl.Items[i].DeepCopy())
+	}
 }
 
 func (c *capSharedInformer) AddEventHandler(h cache.ResourceEventHandler) {
@@ -156,6 +179,15 @@ type OpInfo struct {
 	Result     string
 	PlogBefore int  // length of the provider log before the op
 	StaleBind  bool // bind: the lister's pod had another UID than the API server's
+	// bind: what the request looked like before the call (the pod Bind reads from the lister)
+	BindReq        [][][2]uint32 // requested range lists, in request order (nil = one address, anywhere)
+	BindOwned      []uint32      // addresses stored under the pod's key before the call
+	BindNode       string
+	BindKey        string
+	BindPod        string // ns/name
+	BindNoCalls    bool   // the op made neither a provider request nor a pods/binding call
+	BindDelFail    bool   // a FloatingIP delete of this op was made to fail (a rollback may be incomplete)
+	BindCreateFail bool   // a FloatingIP create of this op was made to fail
 }
 
 func nsIndexer() cache.Indexer {
@@ -166,7 +198,7 @@ func nsIndexer() cache.Indexer {
 func NewWorld(conf Conf, rng *rand.Rand) (*World, error) {
 	w := &World{Conf: conf, Pools: conf.Pools, Rng: rng, Cnt: &Counter{}, nextUID: 1, Voided: map[string]bool{}, Admin: map[uint32]string{}, Mon: map[string]interface{}{}, Snap: map[uint32]schedulerplugin.VerifResyncEntry{},
 		Prov:   &Provider{Assigned: map[uint32]string{}},
-		podIdx: nsIndexer(), stsIdx: nsIndexer(), dpIdx: nsIndexer(), poolIdx: nsIndexer()}
+		podIdx: nsIndexer(), stsIdx: nsIndexer(), dpIdx: nsIndexer(), poolIdx: nsIndexer(), fipIdx: nsIndexer()}
 	w.Gate, w.Bomb = &Gate{}, &Bomb{}
 	w.Cnt.G, w.Prov.G = w.Gate, w.Gate
 	w.Cnt.B, w.Prov.B = w.Bomb, w.Bomb
@@ -202,6 +234,8 @@ func (w *World) startPlugin() error {
 	}
 	ctx.NodeLister = corelisters.NewNodeLister(nodeIdx)
 	w.fipHandlers = nil
+	// the daemon starts its informers and waits for their sync before Init: a fresh process sees the store as it is
+	w.syncFIPs()
 	ctx.FIPInformer = capFIPInformer{ctx.FIPInformer, w}
 	var pools []*floatingip.FloatingIPPool
 	if err := json.Unmarshal([]byte(PoolsJSON(w.Pools)), &pools); err != nil {
